@@ -32,6 +32,7 @@ type c12State struct {
 	seen                       map[string]bool
 	ctxCache                   map[*Emission][]c12GuardCtx
 	frameReach                 map[string]bool
+	rows                       map[*Emission]*c12Row // emissions expanded from a row of a constant table
 }
 
 func runC12(c *Ctx) {
@@ -67,6 +68,12 @@ func runC12(c *Ctx) {
 		return
 	}
 	st.ems = ExtractEmissions(c.P, c.P.FuncsIn("vaxis"), vaxisTerminalSink)
+	for _, e := range st.ems {
+		if !e.Resolved {
+			st.resolveByExec(e)
+		}
+	}
+	st.expandTables()
 	st.caps = st.computeEMU()
 	for k, v := range st.caps {
 		c.info("EMU caps.%s = %s (%s)", k, v.status, v.why)
